@@ -14,6 +14,10 @@ finally the goroutine census of the bubble.
  (U)  a call of a blocking kind (read, write, await, dial, accept) pending when the agent's FIRST Close returns
       returns within `bound` of that moment, and with an error (an await / dial / accept of an agent that had already
       been reported Connected may still deliver its success);
+ (U') a Write pending when a Close is CALLED and woken while that Close is still in progress (abortIO interrupts the
+      socket before Close returns, and a socket's Close may be slow) obeys the same rule for its result: an error,
+      never `(0, nil)` / a short count without error — the harness reports that as `other:short_write…` (the sockets
+      of the harness fail a write only when Close aborts it);
  (L)  every call made after the first Close has returned returns within `bound`; state-dependent kinds report
       the closed error;
  (E)  … and has no effect: the agent keeps zero local and remote candidates;
@@ -46,6 +50,8 @@ structure Ag where
   name : String
   /-- time at which the first Close / GracefulClose on this agent returned -/
   closedAt : Option Nat := none
+  /-- a Close / GracefulClose of this agent has been called (from the API or from a handler) -/
+  closing : Bool := false
   gclosed : Bool := false
   lastState : Option String := none
   /-- a handler has been told Connected / a selected pair (so AwaitConnect had been satisfied) -/
@@ -85,7 +91,8 @@ def Mon.setAg (m : Mon) (a : Ag) : Mon :=
 def Mon.event (m : Mon) : Ev → Mon × Option String
   | .call id ag kind t =>
     let a := m.ag ag
-    ({ m with calls := m.calls ++ [{ id, ag, kind, t, late := a.closedAt.isSome }] }, none)
+    let m1 : Mon := { m with calls := m.calls ++ [{ id, ag, kind, t, late := a.closedAt.isSome }] }
+    (if isClose kind && !a.closing then m1.setAg { a with closing := true } else m1, none)
   | .ret id err t =>
     match m.calls.find? (·.id == id) with
     | none => (m, some s!"return of unknown call {id}")
@@ -118,7 +125,11 @@ def Mon.event (m : Mon) : Ev → Mon × Option String
           else if isBlockingKind c.kind && err.startsWith "other:short_write" then
             (m1, some s!"(U) blocked {c.kind} #{id} returned (0, nil) after Close had returned: {err}")
           else (m1, none)
-        | none => (m1, none)
+        | none =>
+          -- (U') woken by a Close that has not returned yet
+          if a.closing && isBlockingKind c.kind && err.startsWith "other:short_write" then
+            (m1, some s!"(U) blocked {c.kind} #{id} returned (0, nil) while Close was in progress: {err}")
+          else (m1, none)
   | .hEnter ag stream ev mode t =>
     let a := m.ag ag
     if a.gclosed then (m, some s!"(G) handler {ag}{stream}:{ev} invoked at {t} after GracefulClose had returned")
